@@ -1,9 +1,13 @@
 import Driver.C06
+import Driver.C17
+import Driver.C14
 open Lean CKT CKT.Driver
 
 def dispatch (j : Json) : Except String Json := do
   let op ← (← field j "op").getStr?
   if op.startsWith "c06." then c06 op j
+  else if op.startsWith "c17." then c17 op j
+  else if op.startsWith "c14." then c14 op j
   else throw s!"unknown op {op}"
 
 def handle (line : String) : String :=
